@@ -73,7 +73,7 @@ def malformed_cases(rng, count):
     out = []
     specials = [b"a{3,0}", b"a{5,2}", b"a{129}", b"a{128}", b"a{0,128}", b"a{1,129}", b"(a){4294967295}", b"a{4294967297}", b"a{,}", b"a{", b"a{1", b"a{1,",
                 b"[", b"[a", b"[^", b"[[:alpha:", b"(", b"((", b")", b"a)", b"(a", b"\\", b"a\\", b"*", b"+a", b"a**", b"a*+", b"a|", b"|a", b"||", b"()", b"()*", b"(|)",
-                b"\xc3", b"a\xc3", b"\xe2\x82", b"\xf0", b"\xf0\x9f", b"[\xc3]", b"[a-\xc3]", b"\xff", b"a\xe2", b"(" * 40 + b"a" + b")" * 40, b"(a)" * 40]
+                b"\xc3", b"a\xc3", b"\xc0\x80", b"\xc0\x80.", b"x\xc0\x80", b"\xe2\x82", b"\xf0", b"\xf0\x9f", b"[\xc3]", b"[a-\xc3]", b"\xff", b"a\xe2", b"(" * 40 + b"a" + b")" * 40, b"(a)" * 40]
     lines = [b"a\n", b"aaa\n", b"\xc3\xa9\n", b"ab\n", b"\n", b"a", b"", b"aaaaaaaaaaaaaaaaaaaaaaaa\n"]
     for s in specials:
         for l in lines:
